@@ -54,7 +54,10 @@ def execute(c):
     op = c["op"]
     if op == "lroo":
         if c["api"] == "kernel":
-            c["y"] = int(_lroo_kernel(c["x"]))
+            xa = np.asarray(c["x"], dtype="uint8")
+            w = core.Watch(xa)
+            c["y"] = int(_lroo_kernel(xa))
+            c["inmod"] = w.changed()
         else:
             r = _cube(c["x"], dims=tuple(c.get("dims", ("time", "y", "x"))), dask=c.get("dask", False)).hdc.algo.lroo()
             c["y"] = int(np.asarray(r).reshape(-1)[0])
@@ -62,7 +65,9 @@ def execute(c):
         c["ys"] = np.asarray(_lroo_kernel(all_bits(c["n"]))).astype("int64").tolist()
     elif op == "croo":
         da = _cube(c["x"], c["t"], dims=tuple(c.get("dims", ("time", "y", "x"))), dask=c.get("dask", False))
+        w = core.Watch(da.data) if not c.get("dask") else core.Watch()
         r = da.hdc.algo.croo()
+        c["inmod"] = w.changed()
         val = np.asarray(r).reshape(-1)[0]
         c["y"] = int(val) if float(val) == int(val) else -777
         chron = [v for _, v in sorted(zip(c["t"], c["x"]))]
